@@ -133,6 +133,12 @@ fn run_pipeline(cfg: &HookCfg, log: &Rc<RefCell<HookLog>>, ir: &mut Context, pm:
         let mut iter_modified = false;
         for p in &list {
             log.borrow_mut().current = Some(p.to_string());
+            if let Ok(d) = std::env::var("SWVERIF_IR_DUMP") {
+                // debugging aid: the IR text before every pass
+                let n = log.borrow().stages;
+                let _ = std::fs::create_dir_all(&d);
+                let _ = std::fs::write(std::path::Path::new(&d).join(format!("{n:03}_before_{p}.ir")), sway_ir::printer::to_string(ir));
+            }
             let mut g = PassGroup::default();
             g.append_pass(p);
             match pm.run(ir, &g, &one) {
@@ -143,6 +149,10 @@ fn run_pipeline(cfg: &HookCfg, log: &Rc<RefCell<HookLog>>, ir: &mut Context, pm:
                     l.stages += 1;
                 }
                 Err(e) => {
+                    if let Ok(d) = std::env::var("SWVERIF_IR_DUMP") {
+                        let n = log.borrow().stages;
+                        let _ = std::fs::write(std::path::Path::new(&d).join(format!("{n:03}_failed_after_{p}.ir")), sway_ir::printer::to_string(ir));
+                    }
                     log.borrow_mut().ir_error = Some((p.to_string(), e.to_string()));
                     return Err(e);
                 }
